@@ -682,6 +682,30 @@ pub fn gen_item(rng: &mut Rng, ctx: &Ctx, mix: &Mix) -> Cmd {
 pub fn gen_script(rng: &mut Rng, ctx: &Ctx, mix: &Mix, max_len: usize, end: EndStyle) -> Vec<Item> {
     let n = rng.usize_below(max_len + 1);
     let mut items: Vec<Item> = Vec::with_capacity(n + 1);
+    // Listing breakpoints renders label and source text of each marked statement: mark the
+    // statements whose text holds multi-byte characters now and then
+    if mix.break_list > 0 && rng.chance(1, 3) {
+        let offsets = ctx.program.offsets();
+        let wide: Vec<u16> = ctx
+            .program
+            .stmts
+            .iter()
+            .zip(offsets.iter())
+            .filter(|(s, _)| !s.text.is_ascii())
+            .map(|(_, o)| ctx.program.origin().wrapping_add(*o as u16))
+            .collect();
+        if !wide.is_empty() {
+            let addr = *rng.pick(&wide);
+            items.push(Item {
+                cmd: Cmd::BreakAdd(Loc::Abs(addr as i64)),
+                spell: rng.next_u64(),
+            });
+            items.push(Item {
+                cmd: Cmd::BreakList,
+                spell: rng.next_u64(),
+            });
+        }
+    }
     for _ in 0..n {
         let cmd = gen_item(rng, ctx, mix);
         // Biased placement: right after a state-creating command, aim a follow-up at it
